@@ -401,8 +401,10 @@ def check_specs(ctx, specs):
     impl = run_parallel("impl", lines)
     model = vlib.run_side("model", "c15", lines) if ctx.driver_ok else [None] * len(lines)
     dis = []; fails = []; unsupported = 0; accepted = 0
+    ctx.beyond = []   # accepted although not a Cargo-valid specifier (outside the property; reported, not a violation)
     for s, a, b in zip(specs, impl, model):
         if a == "ok": accepted += 1
+        if a == "ok" and "@" in s and spec_specifier(s) is None: ctx.beyond.append(s)
         if b is not None:
             if b == "unsupported": unsupported += 1
             elif (b.split(" ")[0]) != a: dis.append({"input": {"op": "spec", "s": s}, "impl": a, "model": b})
@@ -579,7 +581,9 @@ def run(ctx):
         "model_disagreements": len(disagreements),
         "impl_oracle_failures_new": len(really_new), "impl_oracle_failures_known": known_hit,
         "out_of_model_domain": unsup_spec + unsup_cli,
-        "specifiers": len(specs), "specifiers_accepted": accepted, "cli_cases": len(cases), "cli_ok": n_ok, "cli_outcomes": outs,
+        "specifiers": len(specs), "specifiers_accepted": accepted,
+        "specifiers_accepted_beyond_cargo_rule": {"count": len(ctx.beyond), "samples": ctx.beyond[:8],
+            "note": "is_crate (both front-ends) also accepts the empty name and non-ASCII alphanumerics; the property only requires valid specifiers to be accepted"}, "cli_cases": len(cases), "cli_ok": n_ok, "cli_outcomes": outs,
         "cli_settings_spec_vs_model_diff": n_settings_diff,
         "macro_modules": len(mcases), "macro_pairs_compared": len(pairs), "macro_same": macro_same, "macro_skipped_builder_fails": skipped,
         "tables_regenerated": st["tables_ok"],
